@@ -364,6 +364,43 @@ def single_writer(seed, nops=14):
     return '\n'.join(lines) + '\n', dict(key=('1', t), writer=w)
 
 
+def single_writer_join(seed, frames=36):
+    """C10 with joins: one peer alone writes one key in EVERY frame — between frames, or through an
+    application system in the middle of the frame (at most one such write per frame, so the order
+    written is the order of the script) — while a late client joins; the joiner's displayed values
+    must be in the order written too (S21)."""
+    r = random.Random(seed)
+    n = r.choice([2, 3, 3])
+    t = r.choice([0, 1, 2, 4])
+    lines = _header(r, n, [t])
+    late = n - 1
+    for p in range(n):
+        if p != late:
+            lines.append('OP %d setup' % p)
+    lines.append('ROUND %d' % r.randint(5, 8))
+    w = r.choice([p for p in range(n) if p != late])
+    lines.append('OP %d spawn 1 1 %d:1' % (w, t))
+    lines.append('DRAIN 40')
+    val = 10
+    start = r.randint(0, 6)
+    mode = r.choice(['app', 'app', 'op', 'mixed'])
+    for i in range(frames):
+        if i == start:
+            lines.append('OP %d setup' % late)
+        val += 1
+        if mode == 'app' or (mode == 'mixed' and r.random() < 0.5):
+            lines.append('OP %d appcmd %d insert 1 %d %d' % (w, r.randint(0, 2), t, val))
+        else:
+            lines.append('OP %d write 1 %d %d' % (w, t, val))
+        order = list(range(n))
+        r.shuffle(order)
+        for p in order:
+            if p == w or r.random() < 0.85:
+                lines.append('FRAME %d 1' % p)
+    lines.append('DRAIN 80')
+    return '\n'.join(lines) + '\n', dict(key=('1', t), writer=w)
+
+
 def parents_clean(seed, nops=12):
     """C05: set-parent / re-parent operations by arbitrary peers; operations on the same child by
     different peers are separated by a drain; no cycles."""
@@ -787,6 +824,21 @@ def skinned_clean(seed, nops=10):
             other = r.choice([q for q in peers if q != owner])
             val += 1
             lines.append('OP %d skin %d %s %d' % (other, a, ','.join(map(str, js)) or '-', val))
+    if r.random() < 0.7:
+        # A -> B -> A across peers: the owner skins, ANOTHER peer replaces the skin, the owner sets exactly
+        # its first skin again (same joints, same poses): everybody must end with A
+        lines.append('DRAIN 60')
+        e, owner = r.choice(ents)
+        other = r.choice([q for q in peers if q != owner])
+        ja = [r.choice(ents)[0] for _ in range(r.randint(1, 3))]
+        jb = [r.choice(ents)[0] for _ in range(r.randint(0, 3))]
+        val += 2
+        pa, pb = str(val - 1), str(val)
+        lines.append('OP %d skin %d %s %s' % (owner, e, ','.join(map(str, ja)), pa))
+        lines.append('DRAIN 60')
+        lines.append('OP %d skin %d %s %s' % (other, e, ','.join(map(str, jb)) or '-', pb))
+        lines.append('DRAIN 60')
+        lines.append('OP %d skin %d %s %s' % (owner, e, ','.join(map(str, ja)), pa))
     lines.append('DRAIN 80')
     return '\n'.join(lines) + '\n', {}
 
@@ -827,13 +879,21 @@ def skinned_join(seed, nops=6):
     lines.append('DRAIN 60')
     skinned = r.sample(ents, r.randint(1, min(3, len(ents))))
 
+    used_poses = []
+
     def skin(e):
         nonlocal val
         js = [r.choice(ents) for _ in range(r.randint(0, 3))]
-        ps = []
-        for _ in range(r.randint(0, 2)):
-            val += 1
-            ps.append(val)
+        if used_poses and r.random() < 0.45:
+            # the same bind-pose asset (one glTF skin) under a DIFFERENT joint list
+            ps = r.choice(used_poses)
+        else:
+            ps = []
+            for _ in range(r.randint(0, 3)):
+                val += 1
+                ps.append(val)
+            if ps:
+                used_poses.append(ps)
         lines.append('OP 0 skin %d %s %s' % (e, ','.join(map(str, js)) or '-', ','.join(map(str, ps)) or '-'))
     for e in skinned:
         skin(e)
